@@ -16,6 +16,10 @@ var objTypeString = func() string {
 
 // sig.parse <hex of the input bytes>
 func execSigParse(a []string) string {
+	return withTimeout(20*time.Second, func() string { return execSigParse1(a) })
+}
+
+func execSigParse1(a []string) string {
 	in := string(unhx(a[0]))
 	t, err := signature.Parse(in)
 	if err != nil {
@@ -274,6 +278,15 @@ func runC09(r *Rand, tier string, o *Out) {
 			res := o.Do("P", "sig.parse "+hx(b), true)
 			checkFixedPoint(o, string(b), res)
 		}
+	}
+	// every input of one byte, and every byte after / before a letter: the grammar is over bytes, most of which are
+	// in no token
+	for c := 0; c < 256; c++ {
+		for _, b := range [][]byte{{byte(c)}, {'i', byte(c)}, {byte(c), 'i'}, {'[', byte(c), ']'}} {
+			res := o.Do("P", "sig.parse "+hx(b), true)
+			checkFixedPoint(o, string(b), res)
+		}
+		o.Count("case:every-single-byte")
 	}
 	// a struct followed by a second definition (or by half of one): one definition per struct is the grammar
 	for i := 0; i < 60; i++ {
